@@ -450,7 +450,9 @@ def prepareForOutputting (s : Sequence) : Except Err (List (Dict Chan ChOutF)) :
   let delays ← chans.mapM s.delayOf
   let els ← (List.range seqlen).mapM (fun (i : Nat) => do
     match Dict.get? s.data ((i + 1 : Nat) : Int) with
-    | some (.el e) => prepDelayElement s.getSR e chans delays
+    | some (.el e) =>
+      -- raw arrays are padded at the element's own sample rate (`data[pos].SR`), as `_applyDelays` does
+      prepDelayElement (← e.getSR) e chans delays
     | some (.sub _) => throw Err.key      -- a subsequence has no channel store (KeyError / AttributeError)
     | none => throw Err.key)
   let forged ← els.mapM (fun (e : Element) => e.getArrays false)
